@@ -242,6 +242,8 @@ class URL:
             url = path
         else:
             host, port = server
+            if ":" in host and not host.startswith("["):
+                host = f"[{host}]"  # an IPv6 address of the listening socket
             default_port = {"http": 80, "https": 443, "ws": 80, "wss": 443}[scheme]
             if port == default_port or port is None:
                 url = f"{scheme}://{host}{path}"
@@ -311,6 +313,8 @@ class URL:
 
                 if hostname[-1:] != "]":  # (also for an empty host)
                     hostname = hostname.rsplit(":", 1)[0]
+            elif ":" in hostname and not hostname.startswith("["):
+                hostname = f"[{hostname}]"  # an IPv6 address, as `URL.hostname` reports it
 
             netloc = hostname
             if port is not None:
